@@ -6,6 +6,90 @@ open PewDriver Pew.Convolve
 
 def jRats (l : List Rat) : Json := jList jRat l
 
+/-- a rational square root good to 30 significant digits (`⌊√(n·d·10⁶⁰)⌋ / (d·10³⁰)` for `q = n/d > 0`, 0 for
+`q ≤ 0`): the value the driver gives the opaque `sqrt` parameter of `erfinvWith` -/
+def sqrtQ (q : Rat) : Rat :=
+  if q ≤ 0 then 0
+  else
+    let n := q.num.toNat
+    let d := q.den
+    ((Nat.sqrt (n * d * 10 ^ 60) : Nat) : Rat) / ((d * 10 ^ 30 : Nat) : Rat)
+
+/-! ## 40-digit values for the opaque functions of `Special` (driver only: what the parameters are given when a
+kernel generator is evaluated; partial values `none` = overflow / outside the domain of the function) -/
+
+def SC : Nat := 10 ^ 45
+def toFx (q : Rat) : Int := (q * (SC : Rat)).floor
+def ofFx (i : Int) : Rat := (i : Rat) / (SC : Rat)
+
+def ln2Q : Rat :=
+  ((693147180559945309417232121458176568075500134360255254120680009493393621969694715605863326996418687 : Nat) : Rat)
+    / ((10 ^ 99 : Nat) : Rat)
+
+def s2piQ : Rat :=
+  ((2506628274631000502415765284811045253006986740609938316629923576342293654607841974946595838378057266 : Nat) : Rat)
+    / ((10 ^ 99 : Nat) : Rat)
+
+/-- Taylor series of `exp` on `[0, ln 2)`, fixed point -/
+def expSmall (r : Rat) : Rat :=
+  let rf := toFx r
+  let (_, s) := (List.range 70).foldl
+    (fun (ts : Int × Int) (i : Nat) =>
+      let t := ts.1 * rf / ((SC : Int) * ((i : Int) + 1))
+      (t, ts.2 + t)) ((SC : Int), (SC : Int))
+  ofFx s
+
+/-- `exp q = 2^k · exp r`, `r = q − k ln 2 ∈ [0, ln 2)`; below −3000 the value is 0 (a double is 0 below −745.2),
+above 3000 it overflows -/
+def expQ (q : Rat) : Option Rat :=
+  if q > 3000 then none
+  else if q < -3000 then some 0
+  else
+    let k : Int := (q / ln2Q).floor
+    let e := expSmall (q - (k : Rat) * ln2Q)
+    some (if k ≥ 0 then e * (2 : Rat) ^ k.toNat else e / (2 : Rat) ^ (-k).toNat)
+
+/-- `log x = k ln 2 + 2 artanh((m − 1)/(m + 1))`, `x = 2^k m`, `m ∈ [3/4, 3/2)` -/
+def logQ (x : Rat) : Option Rat :=
+  if x ≤ 0 then none
+  else
+    let k0 : Int := (Nat.log2 x.num.toNat : Int) - (Nat.log2 x.den : Int)
+    let scale (k : Int) : Rat := if k ≥ 0 then x / (2 : Rat) ^ k.toNat else x * (2 : Rat) ^ (-k).toNat
+    let m0 := scale k0
+    let k : Int := if m0 ≥ 3 / 2 then k0 + 1 else if m0 < 3 / 4 then k0 - 1 else k0
+    let m := scale k
+    let z := toFx ((m - 1) / (m + 1))
+    let z2 := z * z / (SC : Int)
+    let (_, s) := (List.range 45).foldl
+      (fun (ps : Int × Int) (i : Nat) => (ps.1 * z2 / (SC : Int), ps.2 + ps.1 / (2 * (i : Int) + 1))) (z, 0)
+    some ((k : Rat) * ln2Q + 2 * ofFx s)
+
+/-- `x ** y` -/
+def rpowQ (x y : Rat) : Option Rat :=
+  if x > 0 then (logQ x).bind (fun l => expQ (y * l))
+  else if x == 0 then (if y == 0 then some 1 else if y > 0 then some 0 else none)
+  else none
+
+abbrev XR := Option Rat
+instance : Add XR := ⟨fun a b => a.bind fun x => b.map fun y => x + y⟩
+instance : Sub XR := ⟨fun a b => a.bind fun x => b.map fun y => x - y⟩
+instance : Mul XR := ⟨fun a b => a.bind fun x => b.map fun y => x * y⟩
+instance : Neg XR := ⟨fun a => a.map fun x => -x⟩
+instance : Zero XR := ⟨some 0⟩
+instance : Div XR := ⟨fun a b => a.bind fun x => b.bind fun y => if y == 0 then none else some (x / y)⟩
+
+def specialQ : Special XR where
+  ofRat := some
+  exp := fun t => t.bind expQ
+  log := fun t => t.bind logQ
+  rpow := fun a b => a.bind fun x => b.bind fun y => rpowQ x y
+  abs := fun t => t.map absR
+  s2pi := some s2piQ
+
+/-- `erfinvWith` over `Rat` with π and the value of `log1p(-x·x)` supplied by the caller and `sqrtQ` for sqrt -/
+def erfinvRat (pi l x : Rat) : Rat :=
+  erfinvWith (K := Rat) ⟨id, pi, fun _ => l, sqrtQ⟩ x
+
 def handle (op : String) (req : Json) : R Json := do
   match op with
   | "c18.convolve" =>
@@ -35,8 +119,26 @@ def handle (op : String) (req : Json) : R Json := do
     let psf ← getList asRat req "psf"
     if psf.isEmpty || x.isEmpty then throw "empty input"
     let c := fullConv x psf
+    -- specification (deconvolve_fullConv): the leading n − 2 samples of the signal
     pure (jObj [("c", jRats c), ("model", jRats (deconvolve c psf)), ("model_same", jRats (deconvolveSame c psf)),
-                ("spec", jRats (x.take (c.length - psf.length - 1)))])
+                ("terminates", jBool (quotientTerminates c psf)),
+                ("spec", jRats (x.take (x.length - 2)))])
+  | "c18.deconv_raw" =>
+    -- any input array, a full convolution or not (inputs no longer than the kernel included)
+    let c ← getList asRat req "c"
+    let psf ← getList asRat req "psf"
+    if psf.isEmpty || c.isEmpty then throw "empty input"
+    pure (jObj [("model", jRats (deconvolve c psf)), ("model_same", jRats (deconvolveSame c psf)),
+                ("terminates", jBool (quotientTerminates c psf)),
+                ("r", jNat (nextPow2 (max c.length psf.length)))])
+  | "c18.erfinv" =>
+    let xs ← getList asRat req "xs"
+    let ls ← getList asRat req "ls"
+    let pi ← getRat req "pi"
+    if xs.length != ls.length then throw "xs and ls differ in length"
+    let vals := (xs.zip ls).map (fun (x, l) => erfinvRat pi l x)
+    let negs := (xs.zip ls).map (fun (x, l) => erfinvRat pi l (-x))
+    pure (jObj [("model", jRats vals), ("model_neg", jRats negs)])
   | "c18.erf" =>
     let xs ← getList asRat req "xs"
     pure (jObj [("model", jRats (xs.map erfApprox))])
@@ -60,8 +162,38 @@ def handle (op : String) (req : Json) : R Json := do
     let b ← getRat req "b"
     let scale ← getRat req "scale"
     let shift ← getRat req "shift"
-    let (x, y) := triangular size a b scale shift
-    pure (jObj [("x", jRats x), ("y", jRats y)])
+    let rows := triangular size a b scale shift
+    -- decidable hypotheses of `triangular_spec`
+    let inside := (axisSym size scale shift).any (fun v => decide (a < v) && decide (v < b))
+    pure (jObj [("x", jRats (rows.map Prod.fst)), ("y", jRats (rows.map Prod.snd)),
+                ("hyp", jBool (decide (a < b) && inside))])
+  | "c18.kernel" =>
+    -- a generator as modelled, the opaque functions at 40 digits; y = null when a value left the functions' domain
+    let name ← getStr req "name"
+    let size ← getNat req "size"
+    let args ← getList asRat req "args"
+    let scale ← getRat req "scale"
+    let shift ← getRat req "shift"
+    let a0 := args.getD 0 0
+    let a1 := args.getD 1 0
+    let need (k : Nat) : R Unit := if args.length == k then pure () else throw s!"{name}: {k} parameters expected"
+    let rows : List (Rat × XR) ← match name with
+      | "beta" => do need 2; pure (beta specialQ size a0 a1 scale shift)
+      | "exponential" => do need 1; pure (exponential specialQ size a0 scale shift)
+      | "inversegamma" => do need 2; pure (inversegamma specialQ size a0 a1 scale shift)
+      | "laplace" => do need 2; pure (laplace specialQ size a0 a1 scale shift)
+      | "loglaplace" => do need 2; pure (loglaplace specialQ size a0 a1 scale shift)
+      | "lognormal" => do need 2; pure (lognormal specialQ size a0 a1 scale shift)
+      | "normal" => do need 2; pure (normal specialQ size a0 a1 scale shift)
+      | "super_gaussian" => do
+          need 3
+          let p := args.getD 2 0
+          if p.den != 1 || p < 0 then throw "super_gaussian: integer power expected"
+          pure (superGaussian specialQ size a0 a1 p.num.toNat scale shift)
+      | _ => throw s!"unknown generator {name}"
+    let ys := rows.map Prod.snd
+    let y : Option (List Rat) := if ys.all Option.isSome then some (ys.map (·.getD 0)) else none
+    pure (jObj [("x", jRats (rows.map Prod.fst)), ("y", jOpt jRats y)])
   | _ => throw s!"unknown op {op}"
 
 end PewDriver.C18
